@@ -1,4 +1,110 @@
-import Gp.Lemmas.Layers.Icmp
-/- C07 for engine licmp: theorems under construction (see notes/licmp.md). -/
+import Gp.Lemmas.Layers.IcmpDefects
+/-
+  C07 for layers/icmp4.go, icmp6.go, icmp6msg.go (engine `licmp`), over the C18 buffer model:
+  for EVERY value of the public fields of the eight layers (any option list, any option data
+  length, any address length, any TypeBytes, any numbers), every payload already in the buffer,
+  all four {FixLengths, ComputeChecksums} and every buffer `b` satisfying the C18 representation
+  invariant `Inv` (that is: every buffer reachable from NewSerializeBuffer[ExpectedSize] by any
+  history of Prepend/Append/Clear with any stale bytes and any capacity — `Gp.C18.inv_run`):
+
+    * `serialize_total`               SerializeTo returns bytes or an error, never panics;
+    * `serialize_buffer_independent`  the outcome (error or bytes + mutated layer) is a function
+                                      of layer, payload and options only: two buffers with equal
+                                      contents give equal outcomes, whatever else they hold;
+    * `serialize_idempotent`          serialising the (mutated) layer again over the same payload
+                                      gives the same bytes and leaves the layer unchanged.
+
+  `AnyLayer` ranges over the eight layer types, so each theorem is eight theorems.  The model is
+  the tree with proposed_fixes/licmp-1 and licmp-3 applied: before licmp-3 the NDP serializers
+  `copy` a short TargetAddress/DestinationAddress into the header and leave the remaining
+  requested bytes unwritten — `Gp.Icmp.buffer_independent_counterexample_prefix` (in
+  Gp/Lemmas/Layers/IcmpDefects.lean) exhibits two buffers with equal contents and different output.
+-/
 namespace Gp.C07.Icmp
+open Gp Gp.SBuf Gp.Icmp Gp.C18
+
+/-- The pure outcome function: independent of any buffer. -/
+theorem serialize_spec (l : AnyLayer) (b : SBuf) (o : SOpts) (h : Inv b) :
+    outOf (l.serialize b o) = specAny l (contents b) o :=
+  (serializeAny_spec l b o h).1
+
+/-- Never panics — every field value, every payload, every option set, every buffer. -/
+theorem serialize_total (l : AnyLayer) (b : SBuf) (o : SOpts) (h : Inv b) (k : PanicKind) :
+    l.serialize b o ≠ .panic k := by
+  intro e
+  have hs := serialize_spec l b o h
+  rw [e] at hs
+  simp only [outOf] at hs
+  cases l <;> simp only [specAny, specICMPv4, specICMPv6, specEcho, specRS, specRA, specNS, specNA,
+    specRedirect] at hs
+  · cases hs
+  · split at hs <;> cases hs
+  · cases hs
+  · cases hs
+  · cases hs
+  · split at hs <;> cases hs
+  · split at hs <;> cases hs
+  · (repeat' split at hs) <;> cases hs
+
+/-- The result buffer is again a buffer of the C18 model (so serializers compose into stacks). -/
+theorem serialize_inv (l l' : AnyLayer) (b b' : SBuf) (o : SOpts) (h : Inv b)
+    (e : l.serialize b o = .ok (b', l')) : Inv b' :=
+  (serializeAny_spec l b o h).2 b' l' e
+
+/-- Output depends only on layer, payload (= contents) and options: not on capacity, stale bytes,
+    size hints or clear history of the buffer. -/
+theorem serialize_buffer_independent (l : AnyLayer) (b1 b2 : SBuf) (o : SOpts)
+    (h1 : Inv b1) (h2 : Inv b2) (hc : contents b1 = contents b2) :
+    outOf (l.serialize b1 o) = outOf (l.serialize b2 o) := by
+  rw [serialize_spec l b1 o h1, serialize_spec l b2 o h2, hc]
+
+/-- In particular: a buffer with an arbitrary history behaves like a fresh one holding the payload. -/
+theorem serialize_history_independent (l : AnyLayer) (p a : Nat) (ops : List Op) (payload : Bytes) (o : SOpts) :
+    outOf (l.serialize (step (clear (run (new p a) ops)) (.prepend payload)) o) =
+    outOf (l.serialize (step (new 0 0) (.prepend payload)) o) := by
+  have i1 : Inv (step (clear (run (new p a) ops)) (.prepend payload)) :=
+    inv_step' _ _ (inv_clear' _ (inv_run_from _ ops (inv_new' p a)))
+  have i2 : Inv (step (new 0 0) (.prepend payload)) := inv_step' _ _ (inv_new' 0 0)
+  apply serialize_buffer_independent l _ _ o i1 i2
+  rw [contents_step_prepend _ _ (inv_clear' _ (inv_run_from _ ops (inv_new' p a))),
+    contents_step_prepend _ _ (inv_new' 0 0), contents_clear]
+  simp [contents, new, zeros]
+
+/-- Serialising again — the layer as mutated by the first call, any buffer holding the same
+    payload — produces the same bytes and does not change the layer any further. -/
+theorem serialize_idempotent (l l' : AnyLayer) (b b' b2 : SBuf) (o : SOpts)
+    (h : Inv b) (h2 : Inv b2) (hc : contents b2 = contents b)
+    (e : l.serialize b o = .ok (b', l')) :
+    outOf (l'.serialize b2 o) = .ok (contents b', l') := by
+  have hs := serialize_spec l b o h
+  rw [e] at hs
+  simp only [outOf] at hs
+  rw [serialize_spec l' b2 o h2, hc]
+  exact spec_idempotent l l' _ _ o hs.symm
+
+/-! ### the pinned (pre-fix) code violates buffer independence: negation witness -/
+
+/-- Without proposed_fixes/licmp-3 a Neighbor Solicitation with a 4-byte TargetAddress leaves 12
+    requested bytes unwritten: equal buffer contents, different output. -/
+theorem prefix_buffer_independent_counterexample :
+    contents dirtyBuf = contents (new 0 0) ∧
+    outOf (serializeNSOrig { targetAddress := [10, 0, 0, 1] } dirtyBuf ⟨true, true⟩) ≠
+    outOf (serializeNSOrig { targetAddress := [10, 0, 0, 1] } (new 0 0) ⟨true, true⟩) :=
+  buffer_independent_counterexample_prefix
+
+/-! ### non-vacuity: out-of-range layers, a dirty buffer and a fresh one -/
+
+/-- an NS with a 4-byte target, an option whose length is no multiple of 8 and one of type 255,
+    serialised into a buffer full of 0xa5 and into a fresh one: both report the same error … -/
+example :
+    outOf ((AnyLayer.ns { targetAddress := [10, 0, 0, 1], options := [⟨1, [1, 2, 3]⟩, ⟨255, []⟩] }).serialize
+      (clear (step (new 0 0) (.prepend (List.replicate 64 0xa5)))) ⟨true, true⟩) = .err "target address" := by decide
+
+/-- … and with a 16-byte target both produce the same 33 bytes. -/
+example :
+    outOf ((AnyLayer.ns { targetAddress := List.replicate 16 9, options := [⟨1, [1, 2, 3]⟩, ⟨255, []⟩] }).serialize
+      (clear (step (new 0 0) (.prepend (List.replicate 64 0xa5)))) ⟨true, true⟩) =
+    outOf ((AnyLayer.ns { targetAddress := List.replicate 16 9, options := [⟨1, [1, 2, 3]⟩, ⟨255, []⟩] }).serialize
+      (new 0 0) ⟨true, true⟩) := by decide
+
 end Gp.C07.Icmp
